@@ -16,6 +16,11 @@ func init() {
 	zzverif.Register("VerifC03DirectiveK3", VerifC03DirectiveK3)
 	zzverif.Register("VerifC03DirectiveK4", VerifC03DirectiveK4)
 	zzverif.Register("VerifC03DirectiveK5", VerifC03DirectiveK5)
+	zzverif.Register("VerifC03DirectiveD0", VerifC03DirectiveD0)
+	zzverif.Register("VerifC03DirectiveD1", VerifC03DirectiveD1)
+	zzverif.Register("VerifC03DirectiveD2", VerifC03DirectiveD2)
+	zzverif.Register("VerifC03DirectiveD3", VerifC03DirectiveD3)
+	zzverif.Register("VerifC03DirectiveD5", VerifC03DirectiveD5)
 }
 
 // directive := "account" SP acct [ GAP ";" comment ] EOL { IND subdirective EOL }
@@ -30,7 +35,8 @@ func init() {
 type c03DirCfg struct {
 	nSeg, nChar int
 	nSym        int
-	nText       int // sub-directive value, include path
+	nText       int // sub-directive value
+	nPath       int // include path
 	nCmnt       int
 	cmnts       []int
 	shapes      []c03NumShape // number samples in commodity / D / format
@@ -210,11 +216,21 @@ func verifC03Directive(cfg c03DirCfg, kind int) {
 		zzverif.Reach("C03.directive.commodity")
 
 	case 2: // include
-		path := c03Path("path", 1+zzverif.Choice("path.len", cfg.nText))
+		path := c03Path("path", 1+zzverif.Choice("path.len", cfg.nPath))
 		text := "include " + path + eol + tail
 		j, errs := Parse(text)
 		zzverif.Observe("text", text)
 		checkTail(j, errs, 0, 1)
+		// class c03-include-path-blank-lost: the path contains a blank (input) and the extracted
+		// path differs: parseIncludeDirective glues the values of the lexer's tokens together
+		// without the blanks between them ("include 2024 x.journal" -> "2024x.journal")
+		blank := false
+		for i := 0; i < len(path); i++ {
+			blank = blank || path[i] == ' '
+		}
+		if blank && j.Includes[0].Path != path && cx.knownClass("c03-include-path-blank-lost") {
+			return
+		}
 		zzverif.Assert(j.Includes[0].Path == path, cx.msg("C03 directive: include path differs from the path written"))
 		zzverif.Reach("C03.directive.include")
 
@@ -292,7 +308,7 @@ var c03FmtShapes = []c03NumShape{
 }
 
 func c03DirQuick() c03DirCfg {
-	return c03DirCfg{nSeg: 2, nChar: 1, nSym: 2, nText: 2, nCmnt: 1, cmnts: []int{-1, 0, 1}, shapes: c03FmtShapes, pShapes: c03SimpleShapes,
+	return c03DirCfg{nSeg: 2, nChar: 1, nSym: 2, nText: 2, nPath: 3, nCmnt: 1, cmnts: []int{-1, 0, 1}, shapes: c03FmtShapes, pShapes: c03SimpleShapes,
 		pForms: []int{0, 1, 3, 5, 7, 11, 13}, pDates: []int{3, 4, 9}, pFocus: 2, comForms: 4, gapN: 1, indN: 1, wideFirst: 3, wideRest: 1}
 }
 
@@ -308,7 +324,7 @@ func VerifC03Directive() {
 // (a separate function: assigning a struct literal to an existing variable inside a branch
 // loses the slice fields under the executor)
 func c03DirCRLF() c03DirCfg {
-	return c03DirCfg{nSeg: 2, nChar: 1, nSym: 1, nText: 1, nCmnt: 1, cmnts: []int{-1, 0}, shapes: c03FmtShapes[:2], pShapes: c03SimpleShapes[:1],
+	return c03DirCfg{nSeg: 2, nChar: 1, nSym: 1, nText: 1, nPath: 1, nCmnt: 1, cmnts: []int{-1, 0}, shapes: c03FmtShapes[:2], pShapes: c03SimpleShapes[:1],
 		pForms: []int{0, 3, 11}, pDates: []int{3}, pFocus: 2, comForms: 4, gapN: 1, indN: 1, crlf: 2}
 }
 
@@ -320,8 +336,24 @@ func VerifC03DirectiveK3() { verifC03Directive(c03DirQuick(), 3) }
 func VerifC03DirectiveK4() { verifC03Directive(c03DirQuick(), 4) }
 func VerifC03DirectiveK5() { verifC03Directive(c03DirQuick(), 5) }
 
-func VerifC03DirectiveDeep() {
-	cfg := c03DirCfg{nSeg: 3, nChar: 3, nSym: 4, nText: 5, nCmnt: 3, cmnts: c03AllCmnts, shapes: c03NumShapes(false), pShapes: c03NumShapes(true),
-		pForms: c03AllForms, pDates: []int{0, 1, 2, 3, 4, 5, 6, 7, 8, 9, 10, 11}, pFocus: 3, comForms: 6, gapN: 3, indN: 9, crlf: 1, wideFirst: 7, wideRest: 1}
-	verifC03Directive(cfg, zzverif.Choice("kind", 6))
+// thorough tier: every kind with larger leaves, every indentation, long number notations; the
+// P directive keeps symbol kinds and price forms separate (their product is out of reach)
+func c03DirDeep() c03DirCfg {
+	return c03DirCfg{nSeg: 2, nChar: 2, nSym: 3, nText: 4, nPath: 5, nCmnt: 2, cmnts: []int{-1, 0, 1, 3}, shapes: c03NumShapes(false), pShapes: c03NumShapes(true),
+		pForms: c03AllForms, pDates: []int{0, 3, 5, 10}, pFocus: 2, comForms: 6, gapN: 2, indN: 9, wideFirst: 7, wideRest: 1}
 }
+
+func VerifC03DirectiveDeep() {
+	kind := zzverif.Choice("kind", 7)
+	if kind == 6 {
+		verifC03Directive(c03DirCRLF(), zzverif.Choice("crlf.kind", 6))
+		return
+	}
+	verifC03Directive(c03DirDeep(), kind)
+}
+
+func VerifC03DirectiveD0() { verifC03Directive(c03DirDeep(), 0) }
+func VerifC03DirectiveD1() { verifC03Directive(c03DirDeep(), 1) }
+func VerifC03DirectiveD2() { verifC03Directive(c03DirDeep(), 2) }
+func VerifC03DirectiveD3() { verifC03Directive(c03DirDeep(), 3) }
+func VerifC03DirectiveD5() { verifC03Directive(c03DirDeep(), 5) }
